@@ -40,7 +40,7 @@ def processLine (line : String) : String :=
         else if bool j "foreignChanged" then s!"PROP C20 wrote-outside-configured-path in={tag}"
         else if (variant == "hostile-path" || variant == "symlink-dotdot-path") && (mcpPathTools.contains t) && !isErr then
           s!"PROP C20 path-other-than-configured-accepted in={tag}"
-        else if variant == "actor-mismatch" && mutating t && p && (!isErr || effect) then s!"PROP C20 actor-not-bound-to-principal in={tag}"
+        else if variant.startsWith "actor-" && mutating t && p && (!isErr || effect) then s!"PROP C20 actor-not-bound-to-principal in={tag}"
         else if isErr && effect then s!"PROP C20 failed-call-had-effect in={tag}"
         else "ok"
     | _ => "ok"
